@@ -18,7 +18,7 @@ import (
 	"verif/vf"
 )
 
-func TestMain(m *testing.M) { vf.Main(m) }
+func TestMain(m *testing.M)   { vf.Main(m) }
 func TestReplay(t *testing.T) { vf.Replay(t) }
 
 type SrcCase struct {
